@@ -183,7 +183,7 @@ func (s Snd[T]) state() *chanState {
 }
 
 func (s Snd[T]) Send(v T) {
-	if ex == nil {
+	if !live() {
 		s.ch <- v
 		return
 	}
@@ -209,7 +209,7 @@ func (s Snd[T]) Send(v T) {
 
 func recvAny[T any](ch <-chan T) (T, bool) {
 	var zero T
-	if ex == nil {
+	if !live() {
 		v, ok := <-ch
 		return v, ok
 	}
@@ -241,7 +241,7 @@ func Recv2[T any](ch <-chan T) (T, bool) { return recvAny(ch) }
 
 // Close replaces close(ch).
 func Close[T any](ch chan<- T) {
-	if ex == nil {
+	if !live() {
 		close(ch)
 		return
 	}
@@ -366,7 +366,7 @@ func passThroughSelect(def bool, cs []Case) int {
 // clause is ready, and if nothing else is ready the goroutine is treated as blocked on the
 // remaining clauses and flagged as spinning.
 func Select(site int, def bool, cs ...Case) int {
-	if ex == nil {
+	if !live() {
 		return passThroughSelect(def, cs)
 	}
 	e := ex
@@ -378,7 +378,7 @@ func Select(site int, def bool, cs ...Case) int {
 	g := yield()
 	var readyArr [8]int
 	ready := readyArr[:0]
-	stutter := -1
+	stutter := uint32(0)
 	for i, c := range cs {
 		s := sts[i]
 		if s == nil {
@@ -392,8 +392,8 @@ func Select(site int, def bool, cs ...Case) int {
 			if len(s.buf) > 0 || len(s.sendq) > 0 {
 				ready = append(ready, i)
 			} else if s.closed {
-				if g.passiveOnly && g.spinSite == site && g.spinCase == i {
-					stutter = i
+				if g.passiveOnly && g.spinSite == site && g.spinMask&(1<<uint(i)) != 0 {
+					stutter |= 1 << uint(i)
 				} else {
 					ready = append(ready, i)
 				}
@@ -420,7 +420,11 @@ func Select(site int, def bool, cs ...Case) int {
 			}
 			cs[i].set(v, ok)
 			if closedCase {
-				g.spinSite, g.spinCase, g.passiveOnly = site, i, true
+				if g.spinSite != site || !g.passiveOnly {
+					g.spinMask = 0
+				}
+				g.spinSite, g.passiveOnly = site, true
+				g.spinMask |= 1 << uint(i)
 			} else {
 				g.active()
 			}
@@ -438,7 +442,7 @@ func Select(site int, def bool, cs ...Case) int {
 	g.hash = mix(g.hash, opSelect+100)
 	for i, c := range cs {
 		s := sts[i]
-		if s == nil || i == stutter {
+		if s == nil || stutter&(1<<uint(i)) != 0 {
 			continue
 		}
 		w := &waiter{g: g, sel: ss, caseIx: i}
@@ -452,7 +456,7 @@ func Select(site int, def bool, cs ...Case) int {
 		e.touchChan(s)
 	}
 	what := "select"
-	if stutter >= 0 {
+	if stutter != 0 {
 		g.spinBlocked = true
 		what = "select (spinning on a closed channel)"
 	}
